@@ -48,10 +48,22 @@ RECURSIVE BitsVal(_)
 BitsVal(bits) == IF bits = << >> THEN 0
                  ELSE 2 * BitsVal(SubSeq(bits, 1, Len(bits) - 1)) + bits[Len(bits)]
 
-RECURSIVE SumSeq(_)
-SumSeq(s) == IF s = << >> THEN 0 ELSE s[1] + SumSeq(Tail(s))
+(* TLC's cost of a recursion grows quadratically with its depth, so folds over  *)
+(* long sequences are balanced (depth O(log n))                                *)
+RECURSIVE SumRange(_, _, _)
+SumRange(s, lo, hi) ==
+    IF lo > hi THEN 0
+    ELSE IF lo = hi THEN s[lo]
+    ELSE LET mid == (lo + hi) \div 2 IN SumRange(s, lo, mid) + SumRange(s, mid + 1, hi)
+SumSeq(s) == SumRange(s, 1, Len(s))
 
-RECURSIVE FlattenSeq(_)
-FlattenSeq(ss) == IF ss = << >> THEN << >> ELSE ss[1] \o FlattenSeq(Tail(ss))
+(* concatenation of a sequence of sequences, balanced so that the work is    *)
+(* O(total * log n) and the recursion depth O(log n)                          *)
+RECURSIVE FlattenRange(_, _, _)
+FlattenRange(ss, lo, hi) ==
+    IF lo > hi THEN << >>
+    ELSE IF lo = hi THEN ss[lo]
+    ELSE LET mid == (lo + hi) \div 2 IN FlattenRange(ss, lo, mid) \o FlattenRange(ss, mid + 1, hi)
+FlattenSeq(ss) == FlattenRange(ss, 1, Len(ss))
 
 =============================================================================
